@@ -117,9 +117,27 @@ def run(ctx, with_model=True):
                   {"TZ": "America/Adak", "C01_FAKE_TIME": "951782400", "PYTHONDEVMODE": "1"}, {"C01_RECURSION": "5000", "PYTHONDONTWRITEBYTECODE": "1", "COLUMNS": "20"},
                   {"PYTHONMALLOC": "malloc", "PYTHONNOUSERSITE": "1", "HOME": "/nonexistent", "USER": "nobody", "HOSTNAME": "h2"}][i % 7])
         matrix.append((e, cwds[i % len(cwds)]))
-    from concurrent.futures import ThreadPoolExecutor
-    with ThreadPoolExecutor(min(12, len(matrix))) as ex:
-        transcripts = list(ex.map(lambda mc: spawn(ops, mc[0], mc[1]), matrix))
+    # one child runs in a working directory that holds files NAMED like the source texts of the history (a text is a text,
+    # whatever the file system happens to contain), each with another experiment inside, plus a few likely names
+    import shutil
+    import tempfile
+    trap = tempfile.mkdtemp(prefix="c01cwd_")
+    decoy = 'def decoy { salt: "decoy" splitters: u return "DECOY" weighted 1 }'
+    try:
+        for text in {o[2] for o in ops if o[0] in ("new", "recompile")} | {"e", "experiment.pyab", "source_code", "salt", "u"}:
+            if 0 < len(text.encode("utf-8", "replace")) <= 255 and "/" not in text and "\x00" not in text:
+                try:
+                    with open(os.path.join(trap, text), "w", encoding="utf-8") as f:
+                        f.write(decoy)
+                except OSError:
+                    pass
+        ctx.count("cwd-trap-files", len(os.listdir(trap)))
+        matrix.append(({"PYTHONHASHSEED": "7"}, trap))
+        from concurrent.futures import ThreadPoolExecutor
+        with ThreadPoolExecutor(min(12, len(matrix))) as ex:
+            transcripts = list(ex.map(lambda mc: spawn(ops, mc[0], mc[1]), matrix))
+    finally:
+        shutil.rmtree(trap, ignore_errors=True)
     model = None
     if with_model and ctx.driver_ok:
         try:
